@@ -138,6 +138,40 @@ pub fn probe_exit(sim: &mut Sim) {
     }
 }
 
+/// C06 (and C01): when every owner cancels every open order, nothing may stay behind. Funds that no
+/// order accounts for - a second escrow taken for an order already approved, a fee that was booked
+/// but not paid - can never be recovered by anybody, although each single exit looks whole.
+pub fn probe_drain(sim: &mut Sim) {
+    let book = sim.book.clone();
+    if book.asks.is_empty() && book.bids.is_empty() {
+        return;
+    }
+    let mut fork = sim.chain.clone();
+    for (id, a) in &book.asks {
+        let r = fork.deliver(&a.owner, &[], &json!({"cancel_ask": {"id": id}}), &TxFaults::default());
+        if !r.outcome.is_accepted() {
+            return; // reported by the per-order probe
+        }
+    }
+    for (id, b) in &book.bids {
+        let r = fork.deliver(&b.owner, &[], &json!({"cancel_bid": {"id": id}}), &TxFaults::default());
+        if !r.outcome.is_accepted() {
+            return;
+        }
+    }
+    sim.cov.hit("C06", Fnv::new().str("drain").u64(book.asks.len() as u64).u64(book.bids.len() as u64).finish(), true);
+    let left = fork.contract_balances();
+    if !left.is_empty() {
+        sim.flag(
+            &["C06", "C01"],
+            "P-exit.funds_left_after_all_exits",
+            "cancel_all",
+            "",
+            format!("after every open order was cancelled by its owner the contract still holds {:?}", left),
+        );
+    }
+}
+
 /// C05: sender x request matrix on a fork, judged by the role predicate of the model.
 pub fn probe_auth(sim: &mut Sim) {
     let book = sim.book.clone();
